@@ -278,6 +278,8 @@ class Executor:
                     mol.write_pka()
                 return mol
             return pipeline, {'returns': True}
+        if kind == 'steps':
+            return self.prepare_steps(call), {'returns': True}
         if kind == 'cli':
             paths = []
             for n, inp in enumerate(ins):
@@ -307,6 +309,67 @@ class Executor:
             return cli, {'returns': False}
         raise RuntimeError('call kind ' + kind)
 
+    def prepare_steps(self, call):
+        """Step-level API on several molecules; call['schedule'] says whose
+        next step runs.  A molecule whose step raises an ordinary exception
+        is finished with that exception; the others go on."""
+        from sim.refserver import materialise_options
+        mols = []
+        for m in call['mols']:
+            inp = self.inputs[m['input']]
+            name = inp['stem'] + '.pdb'
+            src = None
+            if m['stream_kind'] == 'stringio':
+                src = io.StringIO(inp['text'])
+            elif m['stream_kind'] == 'textio':
+                src = io.TextIOWrapper(io.BytesIO(inp['text'].encode('utf-8')), encoding='utf-8')
+            else:
+                d = self.new_input_dir()
+                name = os.path.join(d, inp['stem'] + '.pdb')
+                self.write_file(name, inp['text'])
+            mols.append({'spec': m, 'name': name, 'stream': src, 'step': 0, 'mol': None,
+                         'exc': None, 'opts': materialise_options(m['options'], self.param_path(m.get('param')))})
+        shared = {}
+
+        def advance(st):
+            from propka.lib import loadOptions
+            from propka.input import read_parameter_file, read_molecule_file
+            from propka.parameters import Parameters
+            from propka.molecular_container import MolecularContainer
+            k = st['step']
+            st['step'] = k + 1
+            if k == 0:
+                st['args'] = loadOptions(list(st['opts']) + [st['name']])
+            elif k == 1:
+                key = st['spec'].get('param')
+                if call.get('share_parameters') and key in shared:
+                    st['parameters'] = shared[key]
+                else:
+                    st['parameters'] = read_parameter_file(st['args'].parameters, Parameters())
+                    shared[key] = st['parameters']
+            elif k == 2:
+                st['mol'] = MolecularContainer(st['parameters'], st['args'])
+            elif k == 3:
+                st['mol'] = read_molecule_file(st['name'], st['mol'], stream=st['stream'])
+            elif k == 4:
+                st['mol'].calculate_pka()
+            elif k == 5 and st['spec'].get('write_pka', True):
+                st['mol'].write_pka()
+
+        def run():
+            for idx in call['schedule']:
+                st = mols[idx]
+                if st['exc'] is not None:
+                    continue
+                try:
+                    advance(st)
+                except OSError:
+                    raise
+                except Exception as err:
+                    st['exc'] = err
+            return [st['exc'] if st['exc'] is not None else st['mol'] for st in mols]
+        return run
+
     def _zip_target(self, path):
         # zipfile opens through io.open (possibly proxied): fine either way
         return path
@@ -328,6 +391,15 @@ class Executor:
 
     def observe(self, status, value, before):
         from sim import record
+        if status == 'ok' and isinstance(value, list):
+            out = {'containers': []}
+            for v in value:
+                if isinstance(v, Exception):
+                    out['containers'].append(record.exc_record(v))
+                else:
+                    out['containers'].append({'container': record.container_record(v)})
+            out['pka_files'] = record.read_pka_files(self.cwd, before)
+            return out
         if status == 'ok':
             out = {}
             if value is not None:
@@ -345,14 +417,26 @@ class Executor:
         from sim import record
         exp = {'pka_files': {}}
         ins = call['inputs']
+        if call['kind'] == 'steps':
+            exp['containers'] = []
         for n, iid in enumerate(ins):
             inp = self.inputs[iid]
+            spec = call['mols'][n] if call['kind'] == 'steps' else call
             key = hashlib.sha256(json.dumps(
-                [inp['text'], inp['stem'], call['options'], call.get('param'),
+                [inp['text'], inp['stem'], spec['options'], spec.get('param'),
                  call.get('suffix', '.pdb')]).encode()).hexdigest()
-            ref = self.ref.request(key, inp['text'], inp['stem'], call['options'],
-                                   self.params.get(call.get('param')) if call.get('param') else None,
+            ref = self.ref.request(key, inp['text'], inp['stem'], spec['options'],
+                                   self.params.get(spec.get('param')) if spec.get('param') else None,
                                    call.get('suffix', '.pdb'))
+            if call['kind'] == 'steps':
+                self.ref_digests.append([len(self.events), iid, record.digest(ref), key[:16]])
+                if 'exc' in ref:
+                    exp['containers'].append({'exc': ref['exc']})
+                else:
+                    exp['containers'].append({'container': ref['container']})
+                    if spec.get('write_pka', True):
+                        exp['pka_files'].update(ref['pka_files'])
+                continue
             self.ref_digests.append([len(self.events), iid, record.digest(ref), key[:16]])
             if 'exc' in ref:
                 exp['exc'] = ref['exc']
@@ -365,6 +449,9 @@ class Executor:
 
     def compare(self, call, obs, exp):
         from sim import record
+        if call['kind'] == 'steps' and 'containers' in obs:
+            return record.first_diff({'containers': exp['containers'], 'pka_files': exp['pka_files']},
+                                     {'containers': obs['containers'], 'pka_files': obs['pka_files']})
         if 'exc' in exp or 'exc' in obs:
             a = {'exc': exp.get('exc')}
             b = {'exc': obs.get('exc')}
